@@ -461,7 +461,7 @@ structure Node where
   nodeId : Eid
   mux    : Mux := {}
   claEps : List Eid := []                      -- endpoints of CLA listeners / receivers
-  store  : List (Nat × List Constraint) := []  -- bundle ↦ retention constraints
+  store  : List (Nat × Bundle × List Constraint) := []  -- bundle id ↦ bundle, retention constraints
 deriving Repr
 
 /-- `reportGuard = true` is the repaired `localDelivery` (returns when `Deliver` failed). -/
@@ -504,21 +504,42 @@ def localDelivery (cfg : NCfg) (n : Node) (b : Bundle) (cons : List Constraint) 
       let rep := if b.reqDelivery then statusReport cfg.toCfg r.2.1 b else []
       (r.2.1, r.2.2.1 ++ rep, purge r.2.2.2)
 
+/-- `descriptor.AddConstraint` (the constraints are a set). -/
+def addC (c : Constraint) (cons : List Constraint) : List Constraint :=
+  if cons.contains c then cons else cons ++ [c]
+
 /-- `Core.dispatching` (the routing algorithm's veto is not modelled). -/
 def dispatching (cfg : NCfg) (n : Node) (b : Bundle) (cons : List Constraint) :
     Node × List Out × List Constraint :=
   if n.hasEndpoint cfg.toCfg b.dest then localDelivery cfg n b cons
-  else (n, [.forward b], (cons.filter (· ≠ .dispatchPending)) ++ [.forwardPending])
+  else (n, [.forward b], addC .forwardPending (cons.filter (· ≠ .dispatchPending)))
+
+/-- Write back what `dispatching` left: no constraints = the store deletes the bundle. -/
+def Node.sync (n : Node) (b : Bundle) (cons : List Constraint) : Node :=
+  { n with store := if cons.isEmpty then adelete b.tok n.store else astore b.tok (b, cons) n.store }
 
 /-- `Core.receive` for one arriving copy: a bundle whose identifier is still in the store with
 constraints is ignored; otherwise it is accepted and dispatched. -/
 def receive (cfg : NCfg) (n : Node) (b : Bundle) : Node × List Out :=
   match aload b.tok n.store with
-  | some (_ :: _) => (n, [])
+  | some (_, _ :: _) => (n, [])
   | _ =>
     let r := dispatching cfg n b [.dispatchPending]
-    let n' := r.1
-    ({ n' with store := if r.2.2.isEmpty then adelete b.tok n'.store else astore b.tok r.2.2 n'.store }, r.2.1)
+    (r.1.sync b r.2.2, r.2.1)
+
+/-- `BundleItem.Pending` as computed by `BundleDescriptor.Sync`. -/
+def pendingC (cons : List Constraint) : Bool :=
+  !cons.contains .reassemblyPending && (cons.contains .forwardPending || cons.contains .contraindicated)
+
+/-- `Core.checkPendingBundles` (the cron job): every pending bundle of the store is dispatched
+again — a bundle that was forwarded while nobody had registered its destination is delivered
+locally once an agent has. -/
+def tick (cfg : NCfg) (n : Node) : Node × List Out :=
+  n.store.foldl (fun acc e =>
+    if pendingC e.2.2 then
+      let r := dispatching cfg acc.1 e.2.1 e.2.2
+      (r.1.sync e.2.1 r.2.2, acc.2 ++ r.2.1)
+    else acc) (n, [])
 
 /-! ### Spec for the node -/
 
